@@ -91,17 +91,37 @@ func (c *ctx) skeleton(b *ast.BlockStmt, depth int, out *[]string) {
 			}
 			*out = append(*out, ind+"}")
 		case *ast.RangeStmt:
-			*out = append(*out, ind+"for "+c.src(t.Key)+" := range "+c.src(t.X)+" {")
+			val := ""
+			if t.Value != nil {
+				val = ", " + c.src(t.Value)
+			}
+			*out = append(*out, ind+"for "+c.src(t.Key)+val+" := range "+c.src(t.X)+" {")
 			c.skeleton(t.Body, depth+1, out)
 			*out = append(*out, ind+"}")
 		case *ast.ForStmt:
-			*out = append(*out, ind+"for {")
+			hdr := ""
+			if t.Init != nil || t.Cond != nil || t.Post != nil {
+				part := func(n ast.Node, present bool) string {
+					if !present {
+						return ""
+					}
+					return c.src(n)
+				}
+				hdr = part(t.Init, t.Init != nil) + "; " + part(t.Cond, t.Cond != nil) + "; " + part(t.Post, t.Post != nil) + " "
+			}
+			*out = append(*out, ind+"for "+hdr+"{")
 			c.skeleton(t.Body, depth+1, out)
 			*out = append(*out, ind+"}")
 		case *ast.DeclStmt:
 			*out = append(*out, ind+c.src(t))
 		case *ast.DeferStmt:
-			*out = append(*out, ind+"defer ...")
+			if fl, ok := t.Call.Fun.(*ast.FuncLit); ok {
+				*out = append(*out, ind+"defer func() {")
+				c.skeleton(fl.Body, depth+1, out)
+				*out = append(*out, ind+"}()")
+			} else {
+				*out = append(*out, ind+"defer "+c.src(t.Call))
+			}
 		default:
 			*out = append(*out, ind+c.src(st))
 		}
